@@ -95,6 +95,9 @@ func NewPrivateKeyFromXML(xmlInput string, demo bool) (*PrivateKey, error) {
 	if err != nil {
 		return nil, err
 	}
+	if privk.P == nil || privk.Q == nil || privk.PPrime == nil || privk.QPrime == nil {
+		return nil, errors.New("private key misses a mandatory element (p, q, pPrime or qPrime)")
+	}
 
 	if !demo {
 		// Do some sanity checks on the key data
